@@ -37,6 +37,14 @@ def empty_spec(fluid):
     return s
 
 
+def _wall(rng, s):
+    """pipes with a wall: the outer diameter (heat-loss perimeter) differs from the inner one (flow area)"""
+    if s["pipes"] and rng.random() < 0.35:
+        w = float(rng.choice([6.0, 12.0, 25.0]))
+        for p in s["pipes"]:
+            p["outer_mm"] = p["d_mm"] + w
+
+
 def gen_hydraulic(rng, n_junc=None, fluid=None, features=None):
     """Supply network: meshed core with ext grids, pendant subtrees behind pumps / compressors /
     pressure controllers; flow controllers only on chords; random outages."""
@@ -153,6 +161,13 @@ def gen_hydraulic(rng, n_junc=None, fluid=None, features=None):
             s["valves"].append({"junction": a, "element": b, "et": "ju", "d_mm": d_mm,
                                 "opened": bool(rng.random() < 0.75), "loss": float(rng.choice([0, 0.5, 3.0]))})
             continue
+        if r > 0.93 - features.get("p_hex", 0.05):
+            # a heat exchanger is, hydraulically, a zero-length branch with its own diameter and a lumped loss coefficient
+            if rng.random() < 0.5:
+                a, b = b, a
+            s["heat_exchangers"].append({"from": a, "to": b, "qext_w": float(rng.choice([0.0, 2e3, -1e3])), "d_mm": d_mm,
+                                         "loss": float(rng.choice([0.5, 3.0, 10.0])), "in_service": True})
+            continue
         if rng.random() < 0.5:
             a, b = b, a
         s["pipes"].append({"from": a, "to": b, "length_km": float(rng.choice([0.02, 0.1, 0.35, 1.2, 3.0])) * float(rng.uniform(0.7, 1.3)),
@@ -205,6 +220,7 @@ def gen_hydraulic(rng, n_junc=None, fluid=None, features=None):
     if s["options"]["friction_model"] == "colebrook":
         s["options"]["max_iter_colebrook"] = 100
     fix_service_consistency(s)
+    _wall(rng, s)
     return s
 
 
@@ -258,10 +274,29 @@ def gen_heat_tree(rng, n_junc=None):
         s["sinks"].append({"junction": n - 1, "mdot": 0.3, "scaling": 1.0, "in_service": True})
     s["options"] = {"mode": "sequential", "use_numba": bool(rng.random() < 0.5), "friction_model": "nikuradse",
                     "max_iter_hyd": 60, "max_iter_therm": 60, "max_iter_bidirect": 60}
+    _wall(rng, s)
     return s
 
 
 HC_MODES = ["MF_QE", "MF_DT", "MF_TR", "QE_DT", "QE_TR"]
+
+
+def add_thermal_island(rng, s):
+    """a second, hydraulically supplied part that no temperature source reaches: a pressure-only ext grid feeding a sink
+    through one or two pipes.  Its temperatures are not part of the heat-transfer system."""
+    n0 = len(s["junctions"])
+    top = max(j["index"] for j in s["junctions"])
+    k = int(rng.integers(2, 4))
+    for i in range(k):
+        s["junctions"].append({"pn_bar": 4.0, "tfluid_k": float(rng.choice([293.15, 320.0, 345.0])), "height_m": 0.0,
+                               "in_service": True, "index": top + 2 + 3 * i})
+    s["ext_grids"].append({"junction": n0, "p_bar": 4.0, "t_k": 300.0, "type": "p", "in_service": True})
+    for i in range(k - 1):
+        s["pipes"].append({"from": n0 + i, "to": n0 + i + 1, "length_km": float(rng.uniform(0.05, 0.4)), "d_mm": 80.0,
+                           "k_mm": 0.1, "sections": int(rng.choice([1, 2])), "loss": 0.0, "u_w_per_m2k": 1.0,
+                           "text_k": 283.15, "in_service": True})
+    s["sinks"].append({"junction": n0 + k - 1, "mdot": float(rng.uniform(0.05, 0.4)), "scaling": 1.0, "in_service": True})
+    return s
 
 
 def gen_heat_loop(rng, n_cons=None, modes=None, with_hex=True, makeup=False):
@@ -321,7 +356,8 @@ def gen_heat_loop(rng, n_cons=None, modes=None, with_hex=True, makeup=False):
         mf = float(rng.uniform(0.1, 0.5))
         s["flow_controls"].append({"from": 2 * i, "to": nj, "mdot": mf, "control_active": True, "in_service": True})
         s["heat_exchangers"].append({"from": nj, "to": 2 * i + 1, "qext_w": mf * 4186.0 * float(rng.uniform(5, 30)),
-                                     "d_mm": 100.0, "loss": 0.0, "in_service": True})
+                                     "d_mm": float(rng.choice([80.0, 100.0, 100.0, 150.0])),
+                                     "loss": float(rng.choice([0.0, 0.0, 2.0])), "in_service": True})
         total_m += mf
     if pump_mass:
         s["circ_pumps_m"].append({"return": 1, "flow": 0, "p_flow_bar": 6.0, "mdot": total_m * float(rng.uniform(1.0, 1.0)),
@@ -343,6 +379,7 @@ def gen_heat_loop(rng, n_cons=None, modes=None, with_hex=True, makeup=False):
                            "in_service": True})
     s["options"] = {"mode": str(rng.choice(["sequential", "bidirectional"])), "use_numba": bool(rng.random() < 0.5),
                     "friction_model": "nikuradse", "max_iter_hyd": 100, "max_iter_therm": 100, "max_iter_bidirect": 100}
+    _wall(rng, s)
     return s
 
 
@@ -392,7 +429,7 @@ def build(spec, run_options=False, order=None, row_perm=None):
                 P[i] = pp.create_pipe_from_parameters(
                     net, J[e["from"]], J[e["to"]], length_km=e["length_km"], inner_diameter_mm=e["d_mm"], k_mm=e["k_mm"],
                     sections=e["sections"], loss_coefficient=e["loss"], u_w_per_m2k=e["u_w_per_m2k"], text_k=e["text_k"],
-                    in_service=e["in_service"], index=e.get("index"))
+                    in_service=e["in_service"], index=e.get("index"), outer_diameter_mm=e.get("outer_mm"))
             elif t == "valves":
                 el = J[e["element"]] if e["et"] == "ju" else P[e["element"]]
                 pp.create_valve(net, J[e["junction"]], el, e["et"], inner_diameter_mm=e["d_mm"], opened=e["opened"],
